@@ -573,6 +573,8 @@ func check(prop, tier string) int {
 		"rule":                "scenario = seeded (ops, faults, broker script, config); a run is non-trivial when at least one fault/scripted broker action/application-side cause took effect and it has >= 2 application ops; distinct = distinct canonical trace hashes among non-trivial runs (measured, union over workers)",
 		"samples":             samples,
 		"runs_per_hour":       runsPerHour,
+		"seeds_per_hour":      runsPerHour, // every run is generated from its own derived seed hash(VERIF_SEED, family, run index)
+		"batch_seeds":         tc.seeds,
 		"simulated_seconds":   float64(agg.FakeNs) / 1e9,
 		"scheduler_steps":     agg.Steps,
 		"events_applied":      agg.Events,
